@@ -65,8 +65,27 @@ def serde_case_path():
     return hits[0]
 
 
+class _build_lock:
+    """Checks may run side by side: the crates built on demand (macrolib, replay, probe) are generated and built by one process at a time."""
+    def __enter__(self):
+        import fcntl
+        os.makedirs(WORK, exist_ok=True)
+        self.f = open(os.path.join(WORK, '.build.lock'), 'w')
+        fcntl.flock(self.f, fcntl.LOCK_EX)
+
+    def __exit__(self, *a):
+        import fcntl
+        fcntl.flock(self.f, fcntl.LOCK_UN)
+        self.f.close()
+
+
 def build_replay(features=()):
     """Build (incrementally) and return the replay binary path. Raises RuntimeError on build failure."""
+    with _build_lock():
+        return _build_replay(tuple(features))
+
+
+def _build_replay(features=()):
     gen_macrolib()
     rdir = os.path.join(VERIF, 'replay')
     if REPO != '/repo' or WORK != os.path.join(VERIF, 'work'):
@@ -87,7 +106,8 @@ def build_replay(features=()):
         shutil.copy(os.path.join(REPO, 'Cargo.lock'), lock)
     env = dict(os.environ)
     env['CARGO_NET_OFFLINE'] = 'true'
-    env['CARGO_TARGET_DIR'] = os.path.join(WORK, 'replay-target')
+    # a feature configuration has its own target directory (the binary of the default build is never replaced by it)
+    env['CARGO_TARGET_DIR'] = os.path.join(WORK, 'replay-target' + ''.join('-' + f for f in features))
     env['RUSTFLAGS'] = (env.get('RUSTFLAGS', '') + ' --cfg ts_rs_verif').strip()
     env['VERIF_SERDE_CASE'] = serde_case_path()
     cmd = ['cargo', 'build', '--offline', '--quiet', '--manifest-path', os.path.join(rdir, 'Cargo.toml')]
@@ -100,12 +120,20 @@ def build_replay(features=()):
 
 
 def build_probe():
-    """Build the compile probe (replay/probe: valid generic items whose expansion has to compile). Returns (ok, error_text)."""
+    """Build the compile probe (replay/probe: valid items whose expansion has to compile). Returns (ok, error_text, errors)."""
+    with _build_lock():
+        return _build_probe()
+
+
+def _build_probe():
     pdir = os.path.join(VERIF, 'replay', 'probe')
     if REPO != '/repo' or WORK != os.path.join(VERIF, 'work'):
         p2 = os.path.join(WORK, 'probe-crate')
         os.makedirs(os.path.join(p2, 'src'), exist_ok=True)
-        shutil.copy(os.path.join(pdir, 'src', 'lib.rs'), os.path.join(p2, 'src', 'lib.rs'))
+        for f in os.listdir(os.path.join(pdir, 'src')):
+            a, b = os.path.join(pdir, 'src', f), os.path.join(p2, 'src', f)
+            if not os.path.exists(b) or open(a, 'rb').read() != open(b, 'rb').read():
+                shutil.copy(a, b)
         open(os.path.join(p2, 'Cargo.toml'), 'w').write(open(os.path.join(pdir, 'Cargo.toml')).read().replace('"/repo/ts-rs"', f'"{REPO}/ts-rs"'))
         pdir = p2
     lock = os.path.join(pdir, 'Cargo.lock')
@@ -114,6 +142,25 @@ def build_probe():
     env = dict(os.environ)
     env['CARGO_NET_OFFLINE'] = 'true'
     env['CARGO_TARGET_DIR'] = os.path.join(WORK, 'probe-target')
-    p = subprocess.run(['cargo', 'build', '--offline', '--quiet', '--manifest-path', os.path.join(pdir, 'Cargo.toml')], env=env, capture_output=True, text=True)
-    errs = [l for l in p.stderr.splitlines() if l.startswith('error')]
-    return p.returncode == 0, '\n'.join(p.stderr.splitlines()[-60:]) if p.returncode else '', errs[:6]
+    p = subprocess.run(['cargo', 'build', '--offline', '--quiet', '--message-format=short', '--manifest-path', os.path.join(pdir, 'Cargo.toml')],
+                       env=env, capture_output=True, text=True)
+    errs = []
+    if p.returncode != 0:
+        # name the item / grid cell each compiler error belongs to
+        src = {}
+        for ln in p.stderr.splitlines():
+            m = re.match(r'(src/\w+\.rs):(\d+):\d+: (error.*)', ln)
+            if not m:
+                if ln.startswith('error') and 'could not compile' not in ln:
+                    errs.append(ln)
+                continue
+            f, line, msg = m.group(1), int(m.group(2)), m.group(3)
+            if f not in src:
+                try:
+                    src[f] = open(os.path.join(pdir, f), encoding='utf-8').read().split('\n')
+                except OSError:
+                    src[f] = []
+            cell = next((src[f][i].split('cell:')[1].strip() for i in range(min(line, len(src[f])) - 1, -1, -1) if src[f][i].startswith('// cell:')), None)
+            item = cell or (src[f][line - 1].strip()[:120] if 0 < line <= len(src[f]) else '?')
+            errs.append(f'{f}:{line} [{item}] {msg}')
+    return p.returncode == 0, '\n'.join(p.stderr.splitlines()[-60:]) if p.returncode else '', errs[:12]
